@@ -129,9 +129,23 @@ def check(report: Report, repo: Repo) -> None:
         return isinstance(f, ClassV) and f.qualname in ("TransformerLayer",) or public_functional(f)
 
     depths = (1, 2, 3, 5, 11, 12) if report.tier == "quick" else (1, 2, 3, 4, 5, 7, 9, 10, 11, 12, 13, 21, 32)
+    # one abstract process for all depths: stacks built one after another must not influence each other
+    # (class-level or module-level state carried from an earlier construction)
+    it2 = Interp(repo, opaque=opaque)
+    it2.super_hook = container_super_hook("Sequential")
+    # the constructor options these scenarios cover; a new option means behaviour the scenarios do not exercise
+    KNOWN_OPTIONS = {
+        "TransformerStack": ["layers", "hidden_size", "heads", "is_causal", "dropout_p", "residual_scaling"],
+        "TransformerLayer": ["hidden_size", "heads", "mhsa_tau", "mlp_tau", "is_causal", "dropout_p"],
+        "TransformerDecoder": ["hidden_size", "vocab_size", "layers", "heads", "dropout_p", "residual_scaling"],
+    }
+    for cn_, known_ in KNOWN_OPTIONS.items():
+        init_ = it2.class_attr(it2.get_global(MD, cn_), "__init__")
+        names_ = it2.param_names(init_)[1:] if isinstance(init_, FuncV) else []
+        extra_ = [x_ for x_ in names_ if x_ not in known_]
+        overrides_ = [st_.name for st_ in it2.get_global(MD, cn_).node.body if hasattr(st_, "name") and st_.name in ("forward", "__call__")] if cn_ == "TransformerStack" else []
+        report.add("R2-stack-wiring", f"{MD}::{cn_}.__init__::options", None if (extra_ or overrides_) else True, f"constructor options {extra_} / methods {overrides_} of {cn_} are not covered by the scenarios of this check: what they do to the residual structure is undecided", extra_ + overrides_, [], nontrivial=False)
     for n in depths:
-        it2 = Interp(repo, opaque=opaque)
-        it2.super_hook = container_super_hook("Sequential")
         stack = it2.get_global(MD, "TransformerStack")
         init = it2.class_attr(stack, "__init__")
         selfv = Obj("unit_scaling._modules.TransformerStack", cls=stack)
